@@ -36,7 +36,7 @@ def _validate(ctx, tr, label, count):
             rng = "int-outside-i64" if l["cls"] == "int" else l["cls"]
             fn = "u64_to_bigint/" + first["via"] if first["via"] in ("coin", "asset") else "map_plutus_bigint"
             key = "%s/%s/%s/%s" % (fn, first["ver"], rng, "panic" if first.get("panic") else "inexact")
-            what = "Plutus integer %s mapped to %s (%s, via %s)" % (json.dumps(l), json.dumps(r), first["ver"], first["via"])
+            what = "%s %s mapped to %s (%s, via %s)" % ("quantity" if first["via"] in ("coin", "asset") else "Plutus integer", json.dumps(l), json.dumps(r), first["ver"], first["via"])
             same = lambda e: (e["ev"] == "int" and e["ver"] == first["ver"] and e["l"]["cls"] == l["cls"] and e["rpc"] != e.get("want")
                               and (e["via"] in ("coin", "asset")) == (first["via"] in ("coin", "asset")))
         elif ev == "datum":
@@ -145,7 +145,7 @@ def run(ctx):
     evs1 = vlib.read_ndjson(tr1)
     for d in drifts[:4]:
         e = evs1[int(d) - 1]
-        ctx.notes.append("DRIFT: %s maps %s to %s, the design model to %s (still exact)" % (e["ver"], json.dumps(e["l"]), json.dumps(e["rpc"]), json.dumps(e["want"])))
+        ctx.notes.append("DRIFT (%s): %s mapped to %s, the design model gives %s" % (e["ver"], json.dumps(e["l"]), json.dumps(e["rpc"]), json.dumps(e.get("want", e["l"]))))
 
     # 3. M3: all blocks / transactions of test_data
     tr2 = ctx.path("blocks.ndjson")
